@@ -11,9 +11,12 @@ stdin : {"cases": [ {"profile": <profile spec>, "steps": [<step>, ...]} , ...]}
         {"op": "set", "handle": <char decl handle>, "value": hex, "hooks": {...}}  application sets charac.value
         {"op": "disc"}                                                link-layer disconnection
         {"op": "conn"}                                                new connection (fresh L2CAP/ATT/GATT instance)
-  hook outcome: ["ret"] | ["val", hex] | ["authent"] | ["author"] | ["denied"] | ["notfound"]
+  hook outcome: ["ret"] | ["ret", ["bytes", hex] | ["str", s] | ["int", n]]  (plain return of that object)
+                | ["val", hex] | ["authent"] | ["author"] | ["denied"] | ["notfound"]
                 | ["gatterr", req|null, handle|null, err|null] | ["raise"]
   hook names: read write written written2 sub unsub notif indic
+  "acts": {name: [decl handle, hex]} on a pdu step: before returning / raising, the hook assigns
+          profile.<characteristic declared at that handle>.value (names read write written written2 sub unsub)
 stdout: RESULT {"cases": [ {"steps": [ {"out": [hex...], "exc": cls|null, "probe": bool, "vals": {handle: hex}} ]} ]}
   out   = ATT PDUs leaving the ATT layer towards L2CAP during the step (probe excluded)
   probe = a Read Request on handle 0 sent after the step got exactly one Error Response
@@ -29,11 +32,17 @@ class WouldDeadlock(Exception):
     """threading.Lock.acquire() on a held lock from the only thread: the real server blocks for ever."""
 
 
+DEAD = {"flag": False, "in_pdu": False}
+
+
 class FakeLock:
     def __init__(self):
         self.held = False
     def acquire(self, *a, **k):
         if self.held:
+            # the thread handling a PDU would block for ever: the stack is dead from now on
+            if DEAD["in_pdu"]:
+                DEAD["flag"] = True
             raise WouldDeadlock()
         self.held = True
         return True
@@ -76,9 +85,18 @@ class HookBoom(Exception):
     """what a buggy user hook raises"""
 
 
+RETURNS = object()
+
+
 def fire(outcome):
-    if outcome is None or outcome[0] == "ret":
-        return
+    """raise what the plan says; returns RETURNS-marked value when the hook returns an object itself"""
+    if outcome is None:
+        return None
+    if outcome[0] == "ret":
+        if len(outcome) > 1:
+            kind, v = outcome[1]
+            return (RETURNS, bytes.fromhex(v) if kind == "bytes" else v)
+        return None
     k = outcome[0]
     if k == "val":
         raise HookReturnValue(bytes.fromhex(outcome[1]))
@@ -100,36 +118,46 @@ class HP(Profile):
     def __init__(self):
         super().__init__()
         self.plan = {}
+        self.acts = {}
         self.nwritten = 0
 
+    def _hook(self, name, default):
+        """user hook `name`: update a characteristic if the plan says so, then return / raise"""
+        act = self.acts.get(name)
+        if act is not None:
+            try:
+                ch = self.find_object_by_handle(act[0])
+            except IndexError:
+                ch = None
+            if isinstance(ch, Characteristic):
+                ch.value = bytes.fromhex(act[1])
+        r = fire(self.plan.get(name))
+        if isinstance(r, tuple) and r and r[0] is RETURNS:
+            return r[1]
+        return default()
+
     def on_characteristic_read(self, service, characteristic, offset=0, length=0):
-        fire(self.plan.get("read"))
-        return super().on_characteristic_read(service, characteristic, offset, length)
+        return self._hook("read", lambda: super(HP, self).on_characteristic_read(service, characteristic, offset, length))
 
     def on_characteristic_write(self, service, characteristic, offset=0, value=b'', without_response=False):
-        fire(self.plan.get("write"))
-        return super().on_characteristic_write(service, characteristic, offset, value, without_response)
+        return self._hook("write", lambda: super(HP, self).on_characteristic_write(service, characteristic, offset, value, without_response))
 
     def on_characteristic_written(self, service, characteristic, offset=0, value=b'', without_response=False):
         self.nwritten += 1
-        fire(self.plan.get("written" if self.nwritten == 1 else "written2"))
-        return super().on_characteristic_written(service, characteristic, offset, value, without_response)
+        return self._hook("written" if self.nwritten == 1 else "written2",
+                          lambda: super(HP, self).on_characteristic_written(service, characteristic, offset, value, without_response))
 
     def on_characteristic_subscribed(self, service, characteristic, notification=False, indication=False):
-        fire(self.plan.get("sub"))
-        return super().on_characteristic_subscribed(service, characteristic, notification, indication)
+        return self._hook("sub", lambda: super(HP, self).on_characteristic_subscribed(service, characteristic, notification, indication))
 
     def on_characteristic_unsubscribed(self, service, characteristic):
-        fire(self.plan.get("unsub"))
-        return super().on_characteristic_unsubscribed(service, characteristic)
+        return self._hook("unsub", lambda: super(HP, self).on_characteristic_unsubscribed(service, characteristic))
 
     def on_notification(self, service, characteristic, value):
-        fire(self.plan.get("notif"))
-        return super().on_notification(service, characteristic, value)
+        return self._hook("notif", lambda: super(HP, self).on_notification(service, characteristic, value))
 
     def on_indication(self, service, characteristic, value):
-        fire(self.plan.get("indic"))
-        return super().on_indication(service, characteristic, value)
+        return self._hook("indic", lambda: super(HP, self).on_indication(service, characteristic, value))
 
 
 def build_profile(spec):
@@ -200,15 +228,28 @@ class Rig:
                 vals[str(h)] = bytes(a.value).hex()
         return vals
 
+    LOCKING = {0x02, 0x04, 0x06, 0x08, 0x0a, 0x0c, 0x0e, 0x10, 0x12, 0x52, 0x16, 0x18, 0x1d}
+
     def step(self, st):
         self.out = []
         self.profile.plan = st.get("hooks") or {}
+        self.profile.acts = st.get("acts") or {}
         self.profile.nwritten = 0
         exc = None
+        if DEAD["flag"] and st["op"] == "pdu":
+            # the thread that handles PDUs is blocked for ever: nothing is processed any more
+            pdu = bytes.fromhex(st["hex"])
+            blocked = (1 in self.ll.state.connections and pdu[:1] and pdu[0] in self.LOCKING
+                       and not (pdu[0] == 0x0e and len(pdu) < 3))
+            return [], ("WouldDeadlock" if blocked else None), (1 not in self.ll.state.connections)
         try:
             op = st["op"]
             if op == "pdu":
-                self.inject(bytes.fromhex(st["hex"]))
+                DEAD["in_pdu"] = True
+                try:
+                    self.inject(bytes.fromhex(st["hex"]))
+                finally:
+                    DEAD["in_pdu"] = False
             elif op == "sec":
                 conn = self.ll.state.connections.get(1)
                 if conn is not None:
@@ -216,11 +257,15 @@ class Rig:
                     conn['authenticated'] = bool(st["auth"])
             elif op == "set":
                 ch = self.profile.find_object_by_handle(st["handle"])
-                ch.value = bytes.fromhex(st["value"])
+                if isinstance(ch, Characteristic):
+                    ch.value = bytes.fromhex(st["value"])
             elif op == "disc":
                 self.ll.on_disconnect(1)
             elif op == "conn":
                 if 1 not in self.ll.state.connections:
+                    # a new connection gets fresh L2CAP/ATT/GATT instances (and locks); the model follows the
+                    # instances, not the receive thread, so the "blocked for ever" mark ends here
+                    DEAD["flag"] = False
                     self.connect()
         except WouldDeadlock:
             exc = "WouldDeadlock"
@@ -230,9 +275,12 @@ class Rig:
         # probe: Read Request on handle 0 must be answered by one Error Response
         self.out = []
         self.profile.plan = {}
+        self.profile.acts = {}
         probe = False
         try:
-            if 1 in self.ll.state.connections:
+            if DEAD["flag"]:
+                probe = (1 not in self.ll.state.connections)
+            elif 1 in self.ll.state.connections:
                 self.inject(bytes.fromhex("0a0000"))
                 probe = (self.out == ["010a000001"])
             else:
@@ -244,6 +292,8 @@ class Rig:
 
 
 def run_case(case):
+    DEAD["flag"] = False
+    DEAD["in_pdu"] = False
     prof = build_profile(case["profile"])
     rig = Rig(prof)
     prev = rig.snapshot()
